@@ -253,12 +253,12 @@ static void asl_verif_stmt(void) {
             (long)CurrLine);
     asl_verif_str("op", OpPart.str.p_str);
     fprintf(asl_verif_trace,
-            ",\"lab\":%d,\"ifasm\":%d,\"wasif\":%d,\"wasmac\":%d,\"rec\":%d,"
+            ",\"argc\":%d,\"lab\":%d,\"ifasm\":%d,\"wasif\":%d,\"wasmac\":%d,\"rec\":%d,"
             "\"seg\":%d,\"pc\":%llu,\"ph\":%lld,\"phd\":%d,\"svd\":%d,\"std\":%d,"
             "\"sed\":%d,\"tagd\":%d,\"len\":%ld,\"res\":%d,\"gran\":%d,\"cpu\":%d,"
             "\"errs\":%u,\"ifs\":[",
-            *LabPart.str.p_str ? 1 : 0, IfAsm ? 1 : 0, WasIF ? 1 : 0, WasMACRO ? 1 : 0,
-            FirstOutputTag ? 1 : 0, (int)ActPC,
+            (int)ArgCnt, *LabPart.str.p_str ? 1 : 0, IfAsm ? 1 : 0, WasIF ? 1 : 0,
+            WasMACRO ? 1 : 0, FirstOutputTag ? 1 : 0, (int)ActPC,
             (unsigned long long)((ActPC == StructSeg) ? PCs[ActPC] : ProgCounter()),
             (long long)Phases[ActPC], nPh, nSv, nSt, nSe, asl_verif_depth_intag(),
             (long)CodeLen, DontPrint ? 1 : 0, (int)Granularity(), (int)HeaderID,
